@@ -53,29 +53,44 @@ def header(lib):
 
 def headers_from_dict(d):
     """[(file name, text)] for a description given as a dict: the library header plus one header per class that names its
-    own class-level `cxx_header:`; a class (or function) with `cpp_if:` is wrapped in that conditional."""
+    own class-level `cxx_header:`; a class (or function) with `cpp_if:` is wrapped in that conditional.  A class-level
+    `cxx_header:` that lists several headers gives that many files: the class is declared in the LAST one, every other one
+    declares a typedef `<stem>_id_t` in terms of the typedef of the header listed before it, and the class has a member of
+    the type of the last but one: none of the files includes another, so they only compile in the order listed."""
     language = d.get("language", "c++")
     own = []
 
-    def emit(decls, out, indent):
+    def emit(decls, out, indent, ns=()):
         pad = "    " * indent
         for e in decls:
             decl = e["decl"]
             target = out
+            chain = None
             if decl.startswith("class ") and e.get("cxx_header"):
                 target = []
-                own.append((e["cxx_header"], target))
+                names = e["cxx_header"].split()
+                prev = "int"
+                for hn in names[:-1]:
+                    tname = re.sub(r"\W", "_", hn.rsplit(".", 1)[0]) + "_id_t"
+                    own.append((hn, ["typedef %s %s;" % (prev, tname)]))
+                    prev = tname
+                chain = prev if len(names) > 1 else None
+                own.append((names[-1], target))
+                closers.append((target, len(ns)))
+                target.extend("namespace %s {" % n for n in ns)
             if e.get("cpp_if"):
                 target.append("#" + e["cpp_if"])
             if decl.startswith("class "):
                 name = decl.split()[1]
                 target.append("%sclass %s {" % (pad, name))
                 target.append("%spublic:" % pad)
+                if chain:
+                    target.append("%s    %s shroud_header_order_member;" % (pad, chain))
                 emit(e.get("declarations", []), target, indent + 1)
                 target.append("%s};" % pad)
             elif decl.startswith("namespace "):
                 target.append("%snamespace %s {" % (pad, decl.split()[1]))
-                emit(e.get("declarations", []), target, indent + 1)
+                emit(e.get("declarations", []), target, indent + 1, ns + (decl.split()[1],))
                 target.append("%s}" % pad)
             elif decl.startswith("struct ") and language == "c":
                 # C code names the struct without the keyword
@@ -103,7 +118,10 @@ def headers_from_dict(d):
         return name, "\n".join(pre + body + ["#endif"]) + "\n"
 
     main = []
+    closers = []
     emit(d["declarations"], main, 0)
+    for target, n in closers:
+        target.extend(["}"] * n)
     return [wrap(d["cxx_header"], main)] + [wrap(n, b) for n, b in own]
 
 
@@ -154,7 +172,7 @@ def stub_from_dict(d):
                 out.append("#" + e["cpp_if"])
             if decl.startswith("class "):
                 if e.get("cxx_header"):
-                    hdrs.append(e["cxx_header"])
+                    hdrs.extend(e["cxx_header"].split())
                 walk(e.get("declarations", []), cls=decl.split()[1])
             elif decl.startswith("namespace "):
                 out.append("namespace %s {" % decl.split()[1])
